@@ -755,6 +755,20 @@ def boundary_cases():
         add(P0, six, rprog=[(2, 3000, 0), (1, 100000, 1)], cap_p=cap, drains=False, note="slow receiver, capacity %d" % cap)
         add(P0, six, rprog=[(1, 2, 0), (3, 0, 0)], cap_p=cap, drains=False, cprog=[(START,), (WAITX, 0), (SLEEP, 2000), (STOP,)],
             note="receiver drops its end after two items, capacity %d" % cap)
+    # an ERROR to report while the payload channel is full and the receiver is not taking anything: the loop must
+    # drop the report and go on consuming transfers (try_send only), and stop must still return
+    bad_leader = [leader(3, PT_IMAGE, magic=0x4C563354)]
+    for cap in (1, 2):
+        fill = sum([good_frame(P0, b) for b in range(1, cap + 1)], [])
+        rest = good_frame(P0, 9) + good_frame(P0, 10)
+        for what, mid in (("malformed leader", bad_leader), ("time-out", ["T"]), ("transfer error", [3]),
+                          ("two malformed leaders", bad_leader + bad_leader)):
+            # the receiver keeps its end open without receiving until the controller has stopped the loop
+            add(P0, fill + mid + rest, rprog=[(6, 1, 0)], cap_p=cap, drains=False,
+                cprog=[(START,), (WAITX, 0), (SLEEP, 200), (STOP,), (PHASE,)],
+                note="%s to report while the channel (capacity %d) is full and the receiver never receives" % (what, cap))
+            add(P0, fill + mid + rest, rprog=[(2, 3000, 0), (1, 100000, 1)], cap_p=cap, drains=False,
+                note="%s to report while the channel (capacity %d) is full, slow receiver" % (what, cap))
     for rp in (EAGER_HOLD, EAGER_DROP, EAGER_ALT):
         add(P0, six, rprog=rp, note="receiver holds / drops / alternates")
         add(P0, six, rprog=rp, cap_b=1, note="send-back capacity 1")
